@@ -148,7 +148,7 @@ def ob_refused(cx):
 
 def obligations(tier):
     q = tier == "quick"
-    p = dict(npacks=2 if q else 3, maxcount=12 if q else 30)
+    p = dict(npacks=2 if q else 3, maxcount=12 if q else 15)
     to = 900 if q else 7200
     b = "<= %(npacks)d existing packs with symbolic revision counts 1..%(maxcount)d" % p
     return [
